@@ -4,7 +4,8 @@ overloadFuncName, overloadName, binaryGopNames; doc/overload.md).
 A  K-gen: translator `c10` regenerates Gen/C10.v from cl/compile.go (indexTable, binaryGopNames, the bodies of
    overloadFuncName and overloadName translated to Gallina) and from gogen's import.go (indexTable, gopoPrefix);
    Props/C10.v: C10_resolve_perm_invariant, C10_resolve_complete, C10_overload_names_injective(_across),
-   C10_overloadFuncName_panics_from_36, C10_tables_agree, C10_gopo_table_wellformed, C10_overloadName_spec,
+   C10_overloadFuncName_panics_from_36, C10_tables_agree, C10_gopo_table_wellformed, C10_dispatch_end_to_end,
+   C10_overloadName_spec,
    C10_dunder_name_refuted, C10_operator_literal_refuted
 B  K-diff: generated overload sets (2..4 candidates; funcs, methods, operators; literal / named / method styles;
    every permutation of 12 base sets + seeded sets), compiled by the real compiler in groups, built once and run
@@ -24,7 +25,8 @@ CLAIM = {
     "text": "Coq theorems over (i) the two decision functions overloadFuncName/overloadName translated from cl/compile.go "
             "on every run (name__k injective, Panic from index 36, exact Gopo_ name), (ii) a model of the table cl builds "
             "and of gogen's decoding of it (for every well-formed declaration the decoded receiver, name and k-th entry "
-            "are the declared ones; two proved witnesses outside the guards: a `__` in the overload name and a literal "
+            "are the declared ones, and first-match dispatch over the decoded table reaches the accepting candidate; two "
+            "proved witnesses outside the guards: a `__` in the overload name and a literal "
             "candidate of an operator overload), (iii) order independence and completeness of first-match dispatch for "
             "pairwise distinguishable candidates with an arbitrary `accepts`. Tied to /repo by K-gen and by compiling, "
             "building and running generated overload sets (all permutations, all styles) and comparing constants, "
